@@ -215,6 +215,11 @@ func Assume(c bool) {
 // conclude "the commitment changes when a covered field changes".
 func SameCommitment(a, b [32]byte) bool { return a == b }
 
+// WhenBlocked registers f to run when the calling thread blocks on a channel receive. Natively f runs as a goroutine and must
+// begin by receiving what the calling thread sends before it blocks; symbolically f is run inline at the blocked receive,
+// which is then tried again (sequential, cooperative model of a two-party hand-shake).
+func WhenBlocked(f func()) { go f() }
+
 // Assert states the property.
 func Assert(name string, c bool) {
 	if !c {
